@@ -69,7 +69,99 @@ def early_return(func):
     raise ValueError('JoinedTableRef.make_join: `if tableref.joined:` not found')
 
 
+# ---------------------------------------------------------------------------------------------------------------------------------------
+# Gen/LoadGuards.lean: the guards under which an object known only by its primary key (a "seed") is loaded before it is handed out
+
+LOAD_SITES = [
+    # (lean name, class, method, attribute name of the loading call, {source text of an atom: field of LoadCtx})
+    ('attrGetLoadGuard', 'Attribute', 'get', '_load_', {
+        'val is not None': 'notNone', 'attr.reverse': 'isRef', 'val._subclasses_': 'hasSub',
+        "val._status_ not in ('deleted', 'cancelled')": 'alive', 'cache is not None': 'sessionAlive',
+        'val in cache.seeds[val._pk_attrs_]': 'isSeed'}),
+    ('setCopyLoadGuard', 'Set', 'copy', '_load_many_', {
+        'reverse.is_collection': 'manyToMany', 'reverse.entity._subclasses_': 'hasSub', 'cache is not None': 'sessionAlive', 'cache.is_alive': 'sessionAlive'}),
+    ('queryTupleLoadGuard', 'Query', '_actual_fetch', '_load_many_', {
+        'items is None': 'notCached', 'isinstance(translator.expr_type, EntityMeta)': 'exprIsEntity', 'len(translator.row_layout) == 1': 'singleColumn',
+        'isinstance(t, EntityMeta)': 'isEntity', 't._subclasses_': 'hasSub'}),
+    ('findInCacheLoadGuard', 'EntityMeta', '_find_in_cache_', '_load_', {
+        'obj is not None': 'notNone', 'obj._discriminator_ is not None': 'hasDiscr', 'obj._subclasses_': 'hasSub', 'obj in seeds': 'isSeed'}),
+]
+LOAD_FIELDS = ['notNone', 'isRef', 'hasSub', 'alive', 'sessionAlive', 'isSeed', 'manyToMany', 'notCached', 'exprIsEntity', 'singleColumn', 'isEntity', 'hasDiscr']
+
+
+def load_guard_chain(func, call_attr):
+    """the `if` tests (negated where the call sits in an else / elif branch) between the start of `func` and its single call of `.call_attr(...)`"""
+    def has_call(node):
+        return any(isinstance(n, ast.Call) and isinstance(n.func, ast.Attribute) and n.func.attr == call_attr for n in ast.walk(node))
+    sites = []
+    def walk(stmts, chain):
+        for st in stmts:
+            if not has_call(st): continue
+            if isinstance(st, ast.If):
+                if has_call(st.test): raise ValueError('loading call inside an `if` test')
+                in_body = any(has_call(x) for x in st.body); in_else = any(has_call(x) for x in st.orelse)
+                if in_body: walk(st.body, chain + [(st.test, False)])
+                if in_else: walk(st.orelse, chain + [(st.test, True)])
+            elif isinstance(st, (ast.For, ast.While)):
+                walk(st.body, chain)                      # per item of the loop
+                if any(has_call(x) for x in st.orelse): raise ValueError('loading call in a loop else')
+            elif isinstance(st, (ast.With,)):
+                walk(st.body, chain)
+            elif isinstance(st, ast.Try):
+                raise ValueError('loading call inside try (shape not supported)')
+            else:
+                sites.append(chain)
+    walk(func.body, [])
+    if len(sites) != 1: raise ValueError('%d calls of %s in %s (1 expected)' % (len(sites), call_attr, func.name))
+    return sites[0]
+
+
+def atoms_to_lean(e, table):
+    if isinstance(e, ast.BoolOp):
+        op = ' && ' if isinstance(e.op, ast.And) else ' || '
+        return '(' + op.join(atoms_to_lean(v, table) for v in e.values) + ')'
+    if isinstance(e, ast.UnaryOp) and isinstance(e.op, ast.Not):
+        return '(!' + atoms_to_lean(e.operand, table) + ')'
+    src = ast.unparse(e)
+    if src in table: return 'c.' + table[src]
+    raise ValueError('guard of a seed-loading site uses a condition the model does not know: %r' % src)
+
+
+def regenerate_load_guards(repo, lean_dir):
+    out_path = os.path.join(lean_dir, 'PonyVerif', 'Gen', 'LoadGuards.lean')
+    info = {}
+    try:
+        tree = ast.parse(open(os.path.join(repo, 'pony', 'orm', 'core.py'), encoding='utf-8').read())
+        lines = ['/- GENERATED by harness/gen_c27.py from pony/orm/core.py (the guards around _load_() / _load_many_() at the sites that hand objects out) -- do not edit. -/',
+                 'namespace PonyVerif.Gen.LoadGuards',
+                 '/-- the facts a loading site tests (about the object / entity / session at hand) -/',
+                 'structure LoadCtx where'] + ['  %s : Bool' % f for f in LOAD_FIELDS]
+        for name, cls, meth, call, table in LOAD_SITES:
+            chain = load_guard_chain(find_method(tree, cls, meth), call)
+            info[name] = [('not ' if neg else '') + ast.unparse(t) for t, neg in chain]
+            parts = [('(!%s)' % atoms_to_lean(t, table)) if neg else atoms_to_lean(t, table) for t, neg in chain]
+            lines.append('/-- %s.%s: `%s` -/' % (cls, meth, ' ; '.join(info[name]).replace('-/', '- /')))
+            lines.append('def %s (c : LoadCtx) : Bool := %s' % (name, ' && '.join(parts) if parts else 'true'))
+        lines += ['end PonyVerif.Gen.LoadGuards', '']
+        text = '\n'.join(lines); ok, err = True, None
+    except Exception as e:
+        ok, err = False, '%s: %s' % (type(e).__name__, e)
+        text = '\n'.join(['/- GENERATED by harness/gen_c27.py: the source could not be translated (%s) -/' % err.replace('-/', '- /'),
+                          'namespace PonyVerif.Gen.LoadGuards', 'end PonyVerif.Gen.LoadGuards', ''])
+    old = open(out_path, encoding='utf-8').read() if os.path.exists(out_path) else None
+    changed = old != text
+    if changed:
+        with open(out_path, 'w', encoding='utf-8') as fh: fh.write(text)
+    return {'LoadGuards': {'ok': ok, 'error': err, 'info': info, 'changed': changed}}
+
+
 def regenerate(repo, lean_dir):
+    res = regenerate_join_guards(repo, lean_dir)
+    res.update(regenerate_load_guards(repo, lean_dir))
+    return res
+
+
+def regenerate_join_guards(repo, lean_dir):
     out_path = os.path.join(lean_dir, 'PonyVerif', 'Gen', 'JoinGuards.lean')
     info = {}
     try:
